@@ -88,6 +88,7 @@ PLANS = {
     "C10": [
         ("seamsim", "C10", {"quick": dict(count=8000), "thorough": dict(count=400000)}),
         ("parsim", "C10P", {"quick": dict(count=1500, scheds=6), "thorough": dict(count=10000, scheds=12)}),
+        ("parsim-checked", "C10P", {"quick": dict(count=400, scheds=4), "thorough": dict(count=3000, scheds=8)}),
         ("seamsim-exp", "C10", {"thorough": dict(count=40000)}),
     ],
     "C11": [("seamsim", "C11", {"quick": dict(count=100000), "thorough": dict(count=2000000)}),
@@ -97,6 +98,8 @@ PLANS = {
     "C14": [
         ("seamsim", "C14", {"quick": dict(count=100000), "thorough": dict(count=600000)}),
         ("parsim", "C14P", {"quick": dict(count=2000, scheds=6), "thorough": dict(count=20000, scheds=12)}),
+        ("parsim-checked", "C14P", {"quick": dict(count=600, scheds=4), "thorough": dict(count=5000, scheds=8)}),
+        ("parsim-min", "C14P", {"quick": dict(count=300, scheds=4), "thorough": dict(count=3000, scheds=8)}),
         ("seamsim-checked", "C14", {"quick": dict(count=20000), "thorough": dict(count=200000)}),
     ],
     "C16": [("seamsim", "C16", {"quick": dict(count=48), "thorough": dict(count=120)}),
@@ -104,6 +107,8 @@ PLANS = {
     "C17": [
         ("seamsim", "C17", {"quick": dict(count=100000), "thorough": dict(count=400000)}),
         ("parsim", "C17P", {"quick": dict(count=4000, scheds=8), "thorough": dict(count=30000, scheds=16)}),
+        ("parsim-checked", "C17P", {"quick": dict(count=800, scheds=4), "thorough": dict(count=6000, scheds=8)}),
+        ("parsim-min", "C17P", {"quick": dict(count=400, scheds=4), "thorough": dict(count=3000, scheds=8)}),
         ("seamsim-checked", "C17", {"quick": dict(count=20000), "thorough": dict(count=200000)}),
     ],
 }
